@@ -1492,6 +1492,22 @@ impl Builder {
         self
     }
 
+    /// Verification hook: same as `set_page_size`, available under `--cfg redb_verif`
+    #[cfg(redb_verif)]
+    pub fn verif_set_page_size(&mut self, size: usize) -> &mut Self {
+        assert!(size.is_power_of_two());
+        self.page_size = core::cmp::max(size, 512);
+        self
+    }
+
+    /// Verification hook: same as `set_region_size`, available under `--cfg redb_verif`
+    #[cfg(redb_verif)]
+    pub fn verif_set_region_size(&mut self, size: u64) -> &mut Self {
+        assert!(size.is_power_of_two());
+        self.region_size = Some(size);
+        self
+    }
+
     /// Opens the specified file as a redb database.
     /// * if the file does not exist, or is an empty file, a new database will be initialized in it
     /// * if the file is a valid redb database, it will be opened
